@@ -413,6 +413,12 @@ def build_chains(chains):
 def build_tree_node(nd):
     from pytenet.optree import OpTreeNode, OpTreeEdge
     qnum, children = nd
+    if (len(children) + int(qnum)) % 2:
+        # built incrementally: the node is created empty and its children are attached afterwards (the public add_child)
+        node = OpTreeNode([], qnum)
+        for oid, coeff, ch in children:
+            node.add_child(OpTreeEdge(oid, coeff, build_tree_node(ch)))
+        return node
     return OpTreeNode([OpTreeEdge(oid, coeff, build_tree_node(ch)) for oid, coeff, ch in children], qnum)
 
 
